@@ -730,6 +730,9 @@ def step_join(g: G, schemas: Dict[int, Sch], a: int, b: int):
         nk = g.pick([1, 1, 2])
         if same:
             pref = [c for c in same if c in ("k", "g", "id", "a", "s", "h")]
+            nullable_keys = [c for c in same if sa.cols[c]["null"] and sb.cols[c]["null"]]
+            if nullable_keys and g.cfg.get("nullable_join_key_prob") and g.boolean(g.cfg["nullable_join_key_prob"]):
+                pref = nullable_keys  # keys that can be missing on BOTH sides
             pool = pref if pref and g.boolean(0.8) else same
             on = [[c, c] for c in g.subset(pool, lo=1, hi=nk)]
         if (not on or g.boolean(g.cfg.get("diffname_prob", 0.15))) and "diffname_join_keys" not in closed:
